@@ -1,5 +1,5 @@
 #!/usr/bin/env python3
-"""tools/seedeval.py C03 [C04 ...] [--nums 3,4] — confirm sub-agent mutants in their scratch worktree, run all checks against each,
+"""tools/seedeval.py C03 [C04 ...] [--nums 3,4] [--no-check] — confirm sub-agent mutants in their scratch worktree, run all checks against each,
 and file the confirmed ones under /verif/seeded/<prop>-<n>/."""
 import json, os, shutil, subprocess, sys, time
 ROOT = os.path.dirname(os.path.dirname(os.path.abspath(__file__)))
@@ -45,11 +45,14 @@ def main():
                           "demo_tail_with_patch": o_d1.strip().splitlines()[-4:]}
             fired = None
             if confirmed:
-                rc_s, o_s = sh("%s %s" % (os.path.join(ROOT, "tools", "seedrun.py"), patch), cwd=ROOT, timeout=1800)
-                try:
-                    fired = json.loads(o_s[o_s.index("{"):])["fired"]
-                except Exception:
-                    fired = {"error": o_s[-400:]}
+                if "--no-check" in sys.argv:
+                    fired = {}          # confirm and file only; tools/seedmatrix.py --only ... runs the checks (in parallel, on scratch worktrees)
+                else:
+                    rc_s, o_s = sh("%s %s" % (os.path.join(ROOT, "tools", "seedrun.py"), patch), cwd=ROOT, timeout=1800)
+                    try:
+                        fired = json.loads(o_s[o_s.index("{"):])["fired"]
+                    except Exception:
+                        fired = {"error": o_s[-400:]}
                 rec["checks_fired"] = fired
                 rec["detected"] = bool(fired) and "error" not in fired
                 rec["detected_by_own_property"] = prop in (fired or {})
